@@ -173,7 +173,8 @@ Proof.
   unfold validate_trace_length, length_ok, USIZE_MAX1.
   destruct (is_pow2 n) eqn:P; cbn [negb].
   - apply is_pow2_spec in P. destruct (is_single a).
-    + destruct (Z.leb_spec n (a_first a)); split; try discriminate; try tauto; intros [_ ?]; lia.
+    + destruct (Z.leb_spec n (a_first a)); [destruct (2 ^ 63 <? a_first a + 1)|];
+        split; try discriminate; try tauto; intros [_ ?]; lia.
     + destruct (is_periodic a).
       * destruct (Z.ltb_spec n (a_stride a)); split; try discriminate; try tauto; intros [_ ?]; lia.
       * destruct (Z.leb_spec (2^64) (a_nvals a * a_stride a)).
